@@ -564,7 +564,7 @@ def _known_pos(e, depth=0):
     c = Ctx.current
     if c is None or depth > 40:
         return False
-    if z3.is_const(e):
+    if z3.is_const(e) or e.get_id() in c.posvars:
         return e.get_id() in c.posvars
     if z3.is_app(e) and e.decl().kind() in (z3.Z3_OP_MUL, z3.Z3_OP_ADD):
         return all(_known_pos(ch, depth + 1) for ch in e.children())
@@ -612,6 +612,7 @@ def is_sym(x):
 
 
 def ite(c, a, b):
+    c = _nb(c)
     if isinstance(c, bool):
         return a if c else b
     ce = _b(c)
@@ -631,9 +632,15 @@ def ite(c, a, b):
     return SymInt(z3.simplify(z3.If(ce, ai, bi)))
 
 
+def _nb(c):
+    """numpy.bool_ -> bool (concrete replays go through numpy scalars)"""
+    return bool(c) if type(c).__name__ in ("bool_", "bool") and not isinstance(c, bool) else c
+
+
 def all_(conds):
     out = []
     for c in conds:
+        c = _nb(c)
         if isinstance(c, bool):
             if not c:
                 return False
@@ -647,6 +654,7 @@ def all_(conds):
 def any_(conds):
     out = []
     for c in conds:
+        c = _nb(c)
         if isinstance(c, bool):
             if c:
                 return True
@@ -658,12 +666,14 @@ def any_(conds):
 
 
 def not_(c):
+    c = _nb(c)
     if isinstance(c, bool):
         return not c
     return SymBool(z3.Not(_b(c)))
 
 
 def implies(a, b):
+    a, b = _nb(a), _nb(b)
     if isinstance(a, bool):
         return b if a else True
     if isinstance(b, bool):
